@@ -220,9 +220,15 @@ pub fn run(tier: &str) -> i32 {
         // a directory with this rules file between two others whose tests all match: the run exits as this file alone does
         if !errors && ci % 3 == 0 {
             reset_dir("c16dd");
-            put("c16dd/m_this.guard", &text);
-            put("c16dd/tests/m_this_tests.yaml", &yaml_test_file(&inputs, &exp, "m_this/default"));
-            for nm in ["a_before", "z_after"] {
+            // the file under test and its neighbours have names that are prefixes of one another, with the characters that
+            // sort before and after `.` following the shared part
+            let this_name = ["m_this", "m_this-x", "m_this_x", "m_this0", "m"][(ci / 3) % 5];
+            put(&format!("c16dd/{}.guard", this_name), &text);
+            put(&format!("c16dd/tests/{}_tests.yaml", this_name), &yaml_test_file(&inputs, &exp, &format!("{}/default", this_name)));
+            for nm in ["a_before", "z_after", "m", "m_this", "m_this-x", "m_this_x", "m_this0", "m_this_x_y"] {
+                if nm == this_name {
+                    continue;
+                }
                 put(&format!("c16dd/{}.guard", nm), "rule ok { zz !exists }\n");
                 put(&format!("c16dd/tests/{}_tests.yaml", nm), "- input: {a: 1}\n  expectations:\n    rules:\n      ok: PASS\n");
             }
